@@ -200,6 +200,8 @@ func (s scen) judge(e *sched.Exec) (string, string, *sched.Failure) {
 
 // ---- credentials ----
 
+const outerToken = "outer-container-token"
+
 func credScenario() hx.Scenario {
 	name := "credentials endpoint"
 	return hx.Scenario{Name: name, Run: func(c *hx.Ctx) *hx.ScenarioResult {
@@ -220,7 +222,9 @@ func credScenario() hx.Scenario {
 			o = &obs{}
 			sched.Cur().Values["obs"] = o
 			w := stack.NewWorld(cfg)
-			w.ServerInit(stack.InitParams{Handler: "h", FunctionName: "f", FunctionVersion: "1", AwsKey: "K0", AwsSecret: "S0", AwsSession: "T0", TimeoutMs: 300000})
+			w.ServerInit(stack.InitParams{Handler: "h", FunctionName: "f", FunctionVersion: "1", AwsKey: "K0", AwsSecret: "S0", AwsSession: "T0", TimeoutMs: 300000,
+				// the emulator itself runs inside a container that has a credentials endpoint of its own, and forwards these
+				Customer: map[string]string{"AWS_CONTAINER_AUTHORIZATION_TOKEN": outerToken, "AWS_CONTAINER_CREDENTIALS_FULL_URI": "http://169.254.170.2/outer/credentials", "PLAIN": "v"}})
 			sched.WaitQuiet()
 			token := o.env["AWS_CONTAINER_AUTHORIZATION_TOKEN"]
 			client := &stack.Actor{W: w, P: w.K.Detached("/client"), Name: "client", Gen: 1}
@@ -277,6 +281,9 @@ func credScenario() hx.Scenario {
 			// the runtime's environment: URI + token, no long-lived keys
 			if o.env["AWS_CONTAINER_AUTHORIZATION_TOKEN"] == "" || !strings.HasSuffix(o.env["AWS_CONTAINER_CREDENTIALS_FULL_URI"], "/2021-04-23/credentials") {
 				failf("env-no-token", "the runtime's environment lacks the credentials URI / token: %v", o.env)
+			}
+			if o.env["AWS_CONTAINER_AUTHORIZATION_TOKEN"] == outerToken || strings.Contains(o.env["AWS_CONTAINER_CREDENTIALS_FULL_URI"], "/outer/") {
+				failf("env-forwarded-token-wins", "the runtime's environment carries the forwarded token / URI (%s, %s) instead of the instance's own", o.env["AWS_CONTAINER_AUTHORIZATION_TOKEN"], o.env["AWS_CONTAINER_CREDENTIALS_FULL_URI"])
 			}
 			for _, k := range []string{"AWS_ACCESS_KEY_ID", "AWS_SECRET_ACCESS_KEY", "AWS_SESSION_TOKEN"} {
 				if _, ok := o.env[k]; ok {
